@@ -22,6 +22,8 @@ type oCase struct {
 	Env  map[string]string `json:"env"`
 	File *string           `json:"file"` // YAML text, nil = no file
 	Cli  []string          `json:"cli"`
+	// "-config <file>" after the other arguments instead of before them
+	CfgLast bool `json:"cfglast"`
 }
 
 type oField struct {
@@ -70,8 +72,13 @@ func oRun(c oCase, dir string) (res oRes) {
 		}
 	}
 	// the configuration file is named the documented way; an absent file is simply not there
-	args = append(args, "-config", cfg)
-	args = append(args, c.Cli...)
+	if c.CfgLast { // the order of the arguments is the user's choice
+		args = append(args, c.Cli...)
+		args = append(args, "-config", cfg)
+	} else {
+		args = append(args, "-config", cfg)
+		args = append(args, c.Cli...)
+	}
 	saved := os.Args
 	os.Args = args
 	defer func() { os.Args = saved }()
